@@ -225,6 +225,102 @@ fn run_fault(c: &C03Case, k: u64, fails: &[(usize, bool)]) -> Result<Option<Outc
     Ok(Some(Outcome { classes, worst_detection_us: worst, events: sim.steps }))
 }
 
+/// A member that leaves while it is still joining: it has announced itself, the Feed has not arrived yet
+/// (so it has no active member and is not connected), then it calls leave_cluster after k more events.
+fn run_early_leave(spec: &ClusterSpec, k: u64) -> Result<Option<u64>, Fail> {
+    if spec.n < 3 {
+        return Ok(None);
+    }
+    let mut base = spec.clone();
+    base.n = spec.n - 1;
+    let Some((mut sim, _)) = formed(&base)? else { return Ok(None) };
+    let n = spec.n as u64;
+    let period = spec.period_us();
+    let j = (spec.n - 1) as usize;
+    let idx = sim.add_node(ClusterSpec::addr(j), 0, spec.renew, &spec.cfg, crate::engine::splitmix(spec.seed, 77), crate::handler::HandlerSpec::OFF);
+    let seed_member = (k as usize) % j;
+    let to = sim.identity(seed_member);
+    let info = sim.call(idx, Call::Announce(to));
+    no_trouble(&sim, &info)?;
+    let leaver = sim.identity(idx);
+    let start = sim.steps;
+    while sim.steps < start + k {
+        match sim.step() {
+            Some(i) => no_trouble(&sim, &i)?,
+            None => break,
+        }
+    }
+    let t_fault = sim.now;
+    // the bound speaks about the members that list the leaver as active when it leaves; members that hear a
+    // stale Alive about it later start their own detection then and are not judged here
+    let listed_at_leave: Vec<usize> = (0..j).filter(|s| sim.active_ids(*s).contains(&leaver)).collect();
+    let info = sim.call(idx, Call::Leave);
+    no_trouble(&sim, &info)?;
+    ensure!(info.res_ok, "C03:leave-error", "leave_cluster returned {:?}", info.err);
+    ensure!(
+        info.notes.iter().any(|x| matches!(x, N::Defunct)),
+        "C03:leave-not-defunct",
+        "leave_cluster called {} events after announcing (connected: {}) did not make the instance Defunct",
+        k,
+        sim.nodes[idx].inst.foca.num_members() > 0
+    );
+    sim.nodes[idx].left_at = Some(sim.now);
+    let deadline = t_fault + (2 * n + 1) * period + spec.cfg.suspect_to_down_ms as u64 * MS;
+    let mut listed_after: BTreeSet<usize> = BTreeSet::new();
+    let mut down_at: BTreeMap<usize, u64> = BTreeMap::new();
+    let res: Result<(), Fail> = sim.run_until(deadline, |sim, info| {
+        no_trouble(sim, info)?;
+        if info.node == idx {
+            for (to, kind) in &info.sent {
+                ensure!(
+                    *kind == "TurnUndead",
+                    "C03:departed-member-still-talks",
+                    "node{} left the cluster (while joining) but sent {} to {} at t={}us while handling {} {:?}",
+                    idx,
+                    kind,
+                    to,
+                    info.t,
+                    info.call_kind,
+                    info.delivered_kind
+                );
+            }
+            return Ok(());
+        }
+        for x in &info.notes {
+            match x {
+                N::MemberUp(id) if *id == leaver => {
+                    listed_after.insert(info.node);
+                }
+                N::MemberDown(id) if *id == leaver => {
+                    down_at.insert(info.node, info.t);
+                }
+                N::MemberDown(id) => {
+                    return Err(Fail::new("C03:survivor-declared-down", format!("node{} declared surviving member {} Down", info.node, id)));
+                }
+                N::Defunct | N::Rejoin(_) => return Err(Fail::new("C03:survivor-told-it-is-down", format!("surviving node{} notified {:?}", info.node, x))),
+                _ => {}
+            }
+        }
+        Ok(())
+    });
+    res?;
+    // whoever still lists the leaver as active at the deadline violates the bound (it learned of it after the leave at the latest)
+    for s in listed_at_leave {
+        let lists = sim.active_ids(s).contains(&leaver);
+        ensure!(
+            !lists,
+            "C03:failure-not-detected-in-time",
+            "node{} still lists {} (which left while joining, {} events after its Announce) as active {}us after the leave\n{}",
+            s,
+            leaver,
+            k,
+            deadline - t_fault,
+            sim.describe()
+        );
+    }
+    Ok(Some(sim.steps))
+}
+
 pub fn exec(c: &C03Case, out: &mut CaseOut) -> Result<(), Fail> {
     let spec = &c.spec;
     let fails = failing_set(c);
@@ -265,6 +361,13 @@ pub fn exec(c: &C03Case, out: &mut CaseOut) -> Result<(), Fail> {
             }
         }
         k += stride;
+    }
+    // leave while still joining: every event offset 0..=7 after the Announce
+    for k in 0..8u64 {
+        if run_early_leave(spec, k)?.is_some() {
+            out.sub_evaluations += 1;
+            out.class("leave_while_joining");
+        }
     }
     out.class_n("fault_points", points);
     if out.want_sample {
@@ -311,7 +414,7 @@ pub fn run(ctx: &Ctx, report: &mut Report) -> EvidenceMeta {
     ctx.run_part(&FaultPart, report);
     EvidenceMeta {
         level: "fault_enumeration",
-        rule: "simulated clusters (n 2..=10, formed by real joins or by injected full state at random offsets, generated latencies / seeds / configurations incl. max_transmissions 1..10) in which a generated non-empty proper subset of members fails - each either crashing or calling leave_cluster - at an event index k of the fault-free continuation; for every base run the index is enumerated over a window of one full probe rotation (n+2 probe periods of events): every index in the thorough tier, every 8th (random phase) in the quick tier. evaluations = base runs, sub_evaluations = fault points executed. Oracle: every survivor that listed a failed member as active at the fault instant notifies MemberDown for it no later than (2n+1) probe periods + suspect_to_down_after after the fault; members told by a leaver notify MemberDown in the very call that processes its farewell gossip; a member that left sends nothing but TurnUndead afterwards; no MemberDown about a survivor, no Defunct/Rejoin at a survivor. Non-trivial: the failed member was mid-probe (prober, target or relay), >= 2 members failed, or every detection came from the survivor's own probe; distinct = (n, classes, #failures, max_tx class, index phase)."
+        rule: "simulated clusters (n 2..=10, formed by real joins or by injected full state at random offsets, generated latencies / seeds / configurations incl. max_transmissions 1..10) in which a generated non-empty proper subset of members fails - each either crashing or calling leave_cluster - at an event index k of the fault-free continuation; for every base run the index is enumerated over a window of one full probe rotation (n+2 probe periods of events): every index in the thorough tier, every 8th (random phase) in the quick tier; in addition a further member announces itself and calls leave_cluster 0..7 events later, i.e. before or just after the Feed arrives. evaluations = base runs, sub_evaluations = fault points executed. Oracle: every survivor that listed a failed member as active at the fault instant notifies MemberDown for it no later than (2n+1) probe periods + suspect_to_down_after after the fault; members told by a leaver notify MemberDown in the very call that processes its farewell gossip; a member that left sends nothing but TurnUndead afterwards; no MemberDown about a survivor, no Defunct/Rejoin at a survivor. Non-trivial: the failed member was mid-probe (prober, target or relay), >= 2 members failed, or every detection came from the survivor's own probe; distinct = (n, classes, #failures, max_tx class, index phase)."
             .into(),
         assumptions: vec![
             "transport and timers are otherwise fault-free (latency < probe_rtt/4, timers on time)".into(),
